@@ -162,7 +162,7 @@ func (h *HelloElemVersionBitmap) UnmarshalBinary(data []byte) error {
 	read += int(h.HelloElemHeader.Len())
 
 	h.Bitmaps = make([]uint32, 0)
-	for read < length {
+	for read+4 <= length {
 		h.Bitmaps = append(h.Bitmaps, binary.BigEndian.Uint32(data[read:read+4]))
 		read += 4
 	}
